@@ -108,6 +108,11 @@ fn positions() -> &'static Vec<Pos> {
             Pos { name: "countersig-label-twice", build: |n, _m| map1(Item::Int(7), Item::Array(vec![Item::Bytes(vec![]), Item::Map(vec![(n.clone(), Item::Null), (n, Item::Null)]), Item::Bytes(vec![1])])), recode: recode!(Header), accepts: |i| m_header(i, &mut MCtx::default()).is_ok(), unsigned: false, uninterpreted: false },
             Pos { name: "header-extra-value", build: |n, _m| map1(Item::Int(100), n), recode: recode!(Header), accepts: |_| true, unsigned: false, uninterpreted: true },
             Pos { name: "key-extra-value", build: |n, _m| Item::Map(vec![(Item::Int(1), Item::Int(1)), (Item::Int(-1), n)]), recode: recode!(CoseKey), accepts: |_| true, unsigned: false, uninterpreted: true },
+            // ... also as the *key* of a map nested inside an extra value (and deeper: in an array, under a tag)
+            Pos { name: "header-extra-nested-map-key", build: |n, _m| map1(Item::Int(100), map1(n, Item::Int(0))), recode: recode!(Header), accepts: |_| true, unsigned: false, uninterpreted: true },
+            Pos { name: "key-extra-nested-map-key", build: |n, _m| Item::Map(vec![(Item::Int(1), Item::Int(1)), (Item::Int(-1), Item::Array(vec![map1(n, Item::Null)]))]), recode: recode!(CoseKey), accepts: |_| true, unsigned: false, uninterpreted: true },
+            Pos { name: "claim-extra-nested-map-key", build: |n, _m| map1(Item::Int(8), map1(Item::Int(1), map1(n, Item::Bytes(vec![])))), recode: recode!(ClaimsSet), accepts: |_| true, unsigned: false, uninterpreted: true },
+            Pos { name: "sign1-unprotected-extra-tagged-nested-map-key", build: |n, _m| Item::Array(vec![Item::Bytes(vec![]), map1(Item::Int(-70000), Item::Tag(99, Box::new(map1(n, Item::Int(1))))), Item::Null, Item::Bytes(vec![])]), recode: recode!(coset::CoseSign1), accepts: |_| true, unsigned: false, uninterpreted: true },
             Pos { name: "claim-extra-value", build: |n, _m| map1(Item::Int(8), Item::Array(vec![n])), recode: recode!(ClaimsSet), accepts: |_| true, unsigned: false, uninterpreted: true },
         ]
     })
@@ -331,7 +336,7 @@ pub fn property() -> Property {
     Property {
         id: "C15",
         title: "Integers are decoded exactly or rejected as out of range, never wrapped",
-        rule: "integer n x interpreting position (41 positions (incl. the same integer twice as labels of one map, positions inside counter-signature arrays, nested recipients, key sets, and pairs of adjacent integers in one map): labels, alg, kty, content type, crit / key_ops entries, claim keys, nonces, timestamps, key data length, registry labels, and uninterpreted extra values) \
+        rule: "integer n x interpreting position (45 positions (incl. map keys nested inside extra values, the same integer twice as labels of one map, positions inside counter-signature arrays, nested recipients, key sets, and pairs of adjacent integers in one map): labels, alg, kty, content type, crit / key_ops entries, claim keys, nonces, timestamps, key data length, registry labels, and uninterpreted extra values) \
                x head width (every legal width and the bignum form); exhaustive over the boundary lattice (c-3..c+3 around 0, 23/24, 2^8, 2^16, 2^31, 2^32, 2^63, 2^64 of both signs), random elsewhere in [-2^64, 2^64-1]; \
                non-trivial = |n| >= 2^31 or n on the lattice; distinct by (position, n, width)",
         assumptions: &["oracle: out-of-range => the out-of-range error; in range => accepted iff the reference model accepts, and the re-encoding read by the strict reader holds exactly n"],
